@@ -13,6 +13,7 @@ exists nowhere is ever reported resolved (I5).
 from __future__ import annotations
 
 import copy
+import os
 import signal
 import sys
 
@@ -371,7 +372,13 @@ def generate(rng, opts):
         ops.append({"op": "resolve", "loader": 0, "implicit": True, "external": rng.choice([True, False, None]), "max_iter": None})
     if rng.random() < 0.3:
         ops.append({"op": "json"})
-    return {"world": {"modules": modules, "stubs": stubs, "stubs_pkgs": stubs_pkgs}, "faults": faults, "ops": ops, "cfg": cfg}
+    cwd_entries = []
+    if rng.random() < 0.25:
+        # the working directory of the process happens to hold files or directories named like packages of the graph
+        # (every load here names its package, never a path: the working directory must not matter)
+        for name in rng.sample(sorted({mp.split(".")[0] for mp in modules} | {"nopkg", "_q"}), rng.choice([1, 2, 3])):
+            cwd_entries.append({"name": name, "kind": rng.choice(["file", "dir", "pkgdir"])})
+    return {"world": {"modules": modules, "stubs": stubs, "stubs_pkgs": stubs_pkgs}, "faults": faults, "ops": ops, "cfg": cfg, "cwd_entries": cwd_entries}
 
 
 # ------------------------------------------------------------------------------------------------
@@ -575,15 +582,34 @@ def _execute(plan, ctx, budget_mode):
             for _ in range(2)
         ]
         trace = []
-        with seam.installed():
-            for oi, op in enumerate(plan["ops"]):
-                ctx.steps += 1
-                kind = op["op"]
-                ok = _step(ctx, griffe, w, coll, loaders, tracker, op, budget_mode, faulty_pkgs, all_pkgs, trace, world)
-                if not ok or ctx.failures:
-                    break
-                if not _check_structure(ctx, griffe, coll, tracker, all_pkgs, budget_mode):
-                    break
+        old_cwd = os.getcwd()
+        if plan.get("cwd_entries"):
+            cwd = os.path.join(w.root, "cwd")
+            os.makedirs(cwd, exist_ok=True)
+            for e in plan["cwd_entries"]:
+                path = os.path.join(cwd, e["name"])
+                if e["kind"] == "file":
+                    with open(path, "w") as fh:
+                        fh.write("not a package\n")
+                else:
+                    os.makedirs(path, exist_ok=True)
+                    if e["kind"] == "pkgdir":
+                        with open(os.path.join(path, "__init__.py"), "w") as fh:
+                            fh.write("shadow = 1\n")
+            os.chdir(cwd)
+            ctx.fault("working-directory-holds-namesakes")
+        try:
+            with seam.installed():
+                for oi, op in enumerate(plan["ops"]):
+                    ctx.steps += 1
+                    kind = op["op"]
+                    ok = _step(ctx, griffe, w, coll, loaders, tracker, op, budget_mode, faulty_pkgs, all_pkgs, trace, world)
+                    if not ok or ctx.failures:
+                        break
+                    if not _check_structure(ctx, griffe, coll, tracker, all_pkgs, budget_mode):
+                        break
+        finally:
+            os.chdir(old_cwd)
         ctx.log("end", core.hash_key(_digest(coll)))
         n_alias = len(_aliases(coll))
         ctx.probe("aliases-in-tree", n_alias)
